@@ -10,6 +10,7 @@ EXTENDS IndexKernel, TLC, Json, IOUtils
 Rows == JsonDeserialize(IOEnv.VERIF_IN)
 VARIABLES i, fails
 W(cond, name) == IF cond THEN {} ELSE {name}
+Prep == << <<>>, <<"Rx180">>, <<"Rx180", "Rx180ef">> >>            \* gates that prepare calibration state 0, 1, 2
 US(f, n) == UNION {f[k] : k \in 1..n}
 
 QubitFails(r, q) ==
@@ -32,6 +33,14 @@ QubitFails(r, q) ==
                             /\ SeqSet(q.k_proj[k]) = SeqSet(Final(R, H, k, q.anc)), "C13.stabilizer.kernel")
      \cup W(SeqSet(q.c_all) = 0..(Cycle(R, H) - 1) /\ Len(q.c_all) = Cycle(R, H), "C13.cycle")
      \cup W(SeqSet(q.c_all) = SeqSet(q.c_heralded) \cup SeqSet(q.c_parity) \cup SeqSet(q.c_final), "C13.tags")
+     \* the calibration index the kernel reports for state s is the measurement of a qubit prepared in state s (and the
+     \* heralded one before it follows a reset): what is done to the qubit since its previous measurement
+     \cup W(\A s \in 0..2 :
+              LET ix == CalProjected(R, H, s)[1]  hx == CalHeralded(R, H, s)[1]
+                  at(x) == {j \in 1..Len(q.meas) : q.meas[j] = x} IN
+              /\ Cardinality(at(ix)) = 1 /\ Cardinality(at(hx)) = 1
+              /\ q.gates[CHOOSE j \in at(ix) : TRUE] = Prep[s + 1]
+              /\ q.gates[CHOOSE j \in at(hx) : TRUE] = <<"Reset">>, "C13.calibration.state")
 
 \* the property is stated per ANCILLA (a data qubit is not measured during the stabilizer rounds, so its per-qubit index space
 \* is a different one); data qubits only have to keep heralded/final tags consistent with their own count
